@@ -61,80 +61,6 @@ theorem tokenize_empty_terminator_getLast (s : Str) (allowEmpty : Bool) (acc : O
   rw [hs, hl]
   simp
 
-/-! ## T5 — the cursor/erase/scroll helpers -/
-
-/-- hand-written specification table: documented final byte of each helper -/
-def C19Spec.finalByte : List (String × Char) :=
-  [("cursor_up_str", 'A'), ("cursor_down_str", 'B'), ("cursor_forward_str", 'C'),
-   ("cursor_backward_str", 'D'), ("cursor_next_line_str", 'E'), ("cursor_previous_line_str", 'F'),
-   ("cursor_horizontal_absolute_str", 'G'), ("cursor_position_str", 'H'),
-   ("erase_in_display_str", 'J'), ("erase_in_line_str", 'K'), ("scroll_up_str", 'S'),
-   ("scroll_down_str", 'T')]
-
-/-- what `Main.lean`'s `helper` op computes from a table entry -/
-def renderHelper (pieces : List Gen.HelperPiece) (args : List Int) : Str :=
-  (pieces.map (fun p => match p with
-    | .csi => Gen.csi
-    | .lit l => l
-    | .arg i => Py.intStr (args.getD i 0))).flatten
-
-/-- Facts about the generated table (re-checked by `decide` whenever it is regenerated): every
-    entry was translated, has the documented final byte (a terminator), and has one of the two
-    shapes `CSI str(a) fb` (one parameter) or `CSI str(a) ; str(b) fb` (two parameters). -/
-theorem helperTable_shape : ∀ e ∈ Gen.helperTable, ∃ p ∈ C19Spec.finalByte,
-    p.1 = e.1 ∧ isTerm p.2 = true ∧
-    ((e.2.1 = 1 ∧ e.2.2 = some [.csi, .arg 0, .lit [p.2]]) ∨
-     (e.2.1 = 2 ∧ e.2.2 = some [.csi, .arg 0, .lit [';'], .arg 1, .lit [p.2]])) := by
-  decide
-
-/-- every documented helper is present in the generated table (and vice versa by the above) -/
-theorem helperTable_complete :
-    ∀ p ∈ C19Spec.finalByte, ∃ e ∈ Gen.helperTable, e.1 = p.1 ∧ e.2.2.isSome = true := by
-  decide
-
-theorem helper_one_sequence (name : String) (nargs : Nat) (pieces : List Gen.HelperPiece)
-    (hmem : (name, nargs, some pieces) ∈ Gen.helperTable)
-    (args : List Int) (hargs : args.length = nargs) :
-    ∃ fb, (name, fb) ∈ C19Spec.finalByte ∧
-      renderHelper pieces args = Gen.csi ++ joinSep [';'] (args.map Py.intStr) ++ [fb] ∧
-      tokenize (renderHelper pieces args) =
-        { text := [], seqs := [(0, [⟨joinSep [';'] (args.map Py.intStr), [fb]⟩])] } := by
-  obtain ⟨⟨n', fb⟩, hp, hname, hterm, hshape⟩ := helperTable_shape _ hmem
-  simp only at hname hterm hshape
-  subst hname
-  refine ⟨fb, hp, ?_⟩
-  rcases hshape with ⟨h1, h2⟩ | ⟨h1, h2⟩
-  · subst h1
-    simp only [Option.some.injEq] at h2
-    subst h2
-    match args, hargs with
-    | [a], _ =>
-      have hr : renderHelper [.csi, .arg 0, .lit [fb]] [a] = Gen.csi ++ Py.intStr a ++ [fb] := by
-        simp [renderHelper]
-      rw [hr]
-      refine ⟨by simp [joinSep_one], ?_⟩
-      simpa [joinSep_one] using
-        tokenize_single true none (Py.intStr a) fb (intStr_not_term a) hterm (by simp [acceptSeq])
-  · subst h1
-    simp only [Option.some.injEq] at h2
-    subst h2
-    match args, hargs with
-    | [a, b], _ =>
-      have hr : renderHelper [.csi, .arg 0, .lit [';'], .arg 1, .lit [fb]] [a, b] =
-          Gen.csi ++ (Py.intStr a ++ [';'] ++ Py.intStr b) ++ [fb] := by
-        simp [renderHelper]
-      rw [hr]
-      refine ⟨by simp [joinSep_two], ?_⟩
-      have hps : ∀ ch ∈ Py.intStr a ++ [';'] ++ Py.intStr b, isTerm ch = false := by
-        intro ch hch
-        simp only [List.mem_append, List.mem_singleton] at hch
-        rcases hch with (hch | hch) | hch
-        · exact intStr_not_term a ch hch
-        · rw [hch]; exact semicolon_not_term
-        · exact intStr_not_term b ch hch
-      simpa [joinSep_two] using
-        tokenize_single true none _ fb hps hterm (by simp [acceptSeq])
-
 /-! ## Non-vacuity -/
 
 /-- two sequences at one position, text around them, an unterminated sequence at the end -/
@@ -170,21 +96,9 @@ example : ∃ init kv l1 c,
    (4, [⟨"5".toList, "n".toList⟩, ⟨"3".toList, []⟩]), [⟨"5".toList, "n".toList⟩],
    ⟨"3".toList, []⟩, by decide⟩
 
-/-- T5 instantiated: `cursor_position_str(3, -4)` is `ESC [ 3 ; - 4 H` -/
-example : ("cursor_position_str", 2,
-    some [Gen.HelperPiece.csi, .arg 0, .lit [';'], .arg 1, .lit ['H']]) ∈ Gen.helperTable := by decide
-
-example : renderHelper [.csi, .arg 0, .lit [';'], .arg 1, .lit ['H']] [3, -4] = "\x1b[3;-4H".toList := by
-  decide
-
-example : tokenize (renderHelper [.csi, .arg 0, .lit ['A']] [12]) =
-    { text := [], seqs := [(0, [⟨"12".toList, "A".toList⟩])] } := by decide
-
 #print axioms tokenize_lossless
 #print axioms tokenize_unformatted
 #print axioms tokenize_wellformed
 #print axioms tokenize_empty_terminator_last
 #print axioms tokenize_empty_terminator_getLast
-#print axioms helperTable_shape
-#print axioms helperTable_complete
-#print axioms helper_one_sequence
+
